@@ -68,6 +68,11 @@ impl<A> Lane<A> {
     { unimplemented!() }
 //@endif
 
+    #[verifier::external_body]
+    pub fn to_vec(&self) -> (r: Vec<A>)
+        ensures r@ == self@
+    { unimplemented!() }
+
     // `view_mut()`: a mutable view of the whole array
     #[verifier::external_body]
     pub fn view_mut(&mut self) -> (r: &mut Lane<A>)
